@@ -1,6 +1,7 @@
 """C14 — token initialisation, re-initialisation and isolation between tokens (DESIGN.md §3 C14; very narrow)."""
 import os, re
 from engine.rulelib import *
+from engine import tables
 from rules.c03 import outcomes, ev_calls
 from rules import c03, c11
 
@@ -140,6 +141,43 @@ def r4_free_slot(ctx, prog):
         r.violation(g['qname'], 'free slot is added', 'the slot list no longer adds a free slot when every token is initialised (insertToken=%d guard=%d setter=%d)' % (len(ins), len(guarded), len(setter)), file=g['file'], line=g['line'])
 
 
+def r9_fields_filled(ctx, prog):
+    """C_GetTokenInfo reports the label and the serial number the token was given: a value that is clamped before it is copied into a fixed field of CK_TOKEN_INFO is clamped to the
+    size of *that* field - a smaller bound (the serial's 16 for the 32-byte label) cuts the label every application sees, on every call and after every restart."""
+    r = ctx.rule('C14.R9', 'a value copied into a fixed field of CK_TOKEN_INFO / CK_SLOT_INFO is clamped to exactly the size of that field', floor=1, engine='E8 (clamp bound = field extent)')
+    for f in sorted(prog.functions.values(), key=lambda f: (f['file'], f['line'])):
+        if f['body'] is None or f.get('class') not in ('Token', 'Slot'):
+            continue
+        clamps = {}
+        for c in calls(f['body'], short='resize'):
+            if c.get('recv') is not None and c['recv'].get('k') == 'Var' and c.get('args'):
+                v = tables.const_eval(c['args'][0])
+                if v is not None:
+                    clamps[c['recv']['name']] = (v, c['l'])
+        for c in calls(f['body']):
+            if c.get('callee') not in ('strncpy', 'memcpy') or len(c.get('args', [])) != 3:
+                continue
+            dst, ln = c['args'][0], c['args'][2]
+            if dst.get('k') != 'Member' or not dst.get('fq'):
+                continue
+            cls, fld = dst['fq'].rsplit('::', 1)
+            ftype = next((x['type'] for x in (prog.classes.get(cls, {}).get('fields') or []) if x['name'] == fld), '')
+            m = re.search(r'\[(\d+)\]', ftype)
+            srcs = [x['name'] for x in walk(ln) if x.get('k') == 'Var' and x['name'] in clamps]
+            if not m or not srcs:
+                continue
+            ctx.analysed(f)
+            extent = int(m.group(1))
+            bound, line = clamps[srcs[0]]
+            site = 'copy of %s into %s' % (srcs[0], fld)
+            if bound < extent:
+                r.violation(f['qname'], site, '%s is cut to %d bytes before it is copied into the %d-byte field %s: the value the token was given is reported truncated' % (srcs[0], bound, extent, fld), file=f['file'], line=line)
+            elif bound > extent:
+                r.violation(f['qname'], site, '%s may have %d bytes when it is copied into the %d-byte field %s' % (srcs[0], bound, extent, fld), file=f['file'], line=line)
+            else:
+                r.ok(f['qname'], site, 'clamped to %d = the size of the field' % extent, file=f['file'], line=c['l'])
+
+
 def run(ctx):
     prog = ctx.prog('ossl-file')
     r1_inittoken(ctx, prog)
@@ -156,6 +194,7 @@ def run(ctx):
     c04.r2_oldpin(ctx, prog, rule_id='C14.R6')
     c11.r6_store_key(ctx, prog, rule_id='C14.R7')
     c11.r5_predicates(ctx, prog, rule_id='C14.R8')
+    r9_fields_filled(ctx, prog)
 
 
 MUTANTS = [
